@@ -146,3 +146,12 @@ Proof.
     + rewrite load_kind_absent. destruct kd; split; discriminate.
   - rewrite load_kind_valid. split; discriminate.
 Qed.
+
+Lemma refused_rename : forall prior new sz,
+  target (save_refused prior new sz) = prior /\ temp_of (save_refused prior new sz) = None.
+Proof.
+  intros prior new sz. unfold save_refused. split.
+  - pose proof (crash_target prior new sz 7) as H. cbn [Nat.leb] in H.
+    transitivity (target (crash prior new sz 7)); [reflexivity|exact H].
+  - unfold temp_of, read_name, unlink. cbn. reflexivity.
+Qed.
